@@ -112,6 +112,46 @@ theorem next_bits_core_mainnet_limit (nBits : Nat) (ts : Int) :
   rw [bitsMainnetLimit_eq]
   exact next_work_limit_same nBits ts
 
+/-- regtest: Core holds `powLimit` as the uint256 `7fff…ff` = 2^255-1, btclib as `target_from_bits(207fffff)` =
+    `0x7fffff·2^232`; everything in between encodes as `207fffff`, so clamping to either gives the same result.
+    (Core never retargets on regtest — `fPowNoRetargeting` — but `next_bits` can be asked.) -/
+theorem next_bits_core_regtest_limit (nBits : Nat) (ts : Int) :
+    CorePow.calculateNextWorkRequired nBits ts (2 ^ 255 - 1) =
+      CorePow.calculateNextWorkRequired nBits ts (CorePow.setCompact 0x207fffff).value := by
+  rw [bitsRegtestLimit_eq]
+  exact next_work_limit_same_gen bitsRegtestLimit coreRegtestLimit (32, 0x7fffff)
+    (by unfold bitsRegtestLimit coreRegtestLimit; norm_num) (by unfold coreRegtestLimit; norm_num)
+    compactOf_top_regtest nBits ts
+
+/-- signet (default challenge): Core's `powLimit` `00000377ae00…00` IS `target_from_bits(1e0377ae)`, nothing to bridge;
+    testnet3/4 share mainnet's.  With `next_bits_eq_core` (any non-overflowing limit bits) every network's retarget is
+    Core's. -/
+theorem next_bits_core_signet_limit : (CorePow.setCompact 0x1e0377ae).value = 0x377ae * 2 ^ 216 :=
+  bitsSignetLimit_eq
+
+/-- the retarget clamp: the measured timespan enters only through its value clamped to `[T/4, 4T]`
+    (`T` = 1 209 600 s): shorter than 3.5 days counts as 3.5 days, longer than 8 weeks as 8 weeks. -/
+theorem next_bits_timespan_clamp (nBits : Nat) (ts : Int) (powLimit : Nat) :
+    CorePow.calculateNextWorkRequired nBits ts powLimit =
+      CorePow.calculateNextWorkRequired nBits (max 302400 (min ts 4838400)) powLimit :=
+  next_work_clamp nBits ts powLimit
+
+/-- `BlockHeader.assert_valid_pow(limit)` (model `Block.assertValidPow` over the TRANSLATED codec; run by the driver's
+    `pow.valid`, tied to the real method by the stream of that name) is Core's `CheckProofOfWork` / `DeriveTarget`:
+    accepted iff the bits are not negative, do not overflow, denote a non-zero target not above the limit's, and the
+    hash does not exceed the target — negative, overflowing and zero targets are all refused. -/
+theorem valid_pow_iff_core (bits limitBits hash : Bytes) (hb : bits.length = 4) (hl : limitBits.length = 4) :
+    Block.assertValidPow bits limitBits hash = .ok () ↔
+      (CorePow.setCompact (ofBE bits)).negative = false ∧ (CorePow.setCompact (ofBE bits)).overflow = false ∧
+      (CorePow.setCompact (ofBE bits)).value ≠ 0 ∧ (CorePow.setCompact (ofBE limitBits)).overflow = false ∧
+      (CorePow.setCompact (ofBE bits)).value ≤ (CorePow.setCompact (ofBE limitBits)).value ∧
+      ofBE hash ≤ (CorePow.setCompact (ofBE bits)).value :=
+  Block.assertValidPow_ok_iff bits limitBits hash hb hl
+
+example : Block.assertValidPow [0x20, 0x7f, 0xff, 0xff] [0x20, 0x7f, 0xff, 0xff] (0x7f :: List.replicate 31 0) = .ok () := by decide
+example : Block.assertValidPow [0x20, 0x7f, 0xff, 0xff] [0x1d, 0x00, 0xff, 0xff] (List.replicate 32 0) = .error .aboveLimit := by decide
+example : Block.assertValidPow [0x1d, 0x80, 0xff, 0xff] [0x1d, 0x00, 0xff, 0xff] (List.replicate 32 0) = .error .negative := by decide
+
 /-- `block_work` is `2^256 // (target + 1)`; an overflowing, a zero and a negative compact form are refused. -/
 theorem block_work_formula (b : Bytes) (hb4 : b.length = 4) :
     Gen.Pow.block_work b =
